@@ -785,7 +785,7 @@ get_valid_child_classes(std::map<std::string, CastDetails> &answer, CPPStructTyp
 
   // See DoesInheritFromIsClass().
   static std::set<CPPStructType *> visiting;
-  if (!visiting.insert(inclass).second) {
+  if (visiting.size() >= 50 || !visiting.insert(inclass).second) {
     return;
   }
 
@@ -8800,8 +8800,10 @@ DoesInheritFromIsClass(const CPPStructType *inclass, const std::string &name) {
 
   // A base class given in terms of template parameters may resolve, by name,
   // to the class we came from (as in Tup<H, Ts...> : Tup<Ts...>).
+  // Or it may resolve to a new instantiation each time (S<N> : S<N - 1>), so
+  // do not go arbitrarily deep either.
   static std::set<const CPPStructType *> visiting;
-  if (!visiting.insert(inclass).second) {
+  if (visiting.size() >= 50 || !visiting.insert(inclass).second) {
     return false;
   }
 
